@@ -2,7 +2,7 @@
 """Replay of a solver model against the real code in /repo (no solver, no symbolic engine in this process).
 property: C01
 harness : harness.c01_mapping.check_mod_mapping
-found   : mapping a second molecule with the same modification Mapping objects (as DoMapping.run_system does for every molecule of a system) loses the particle the modification mapping creates: the first do_mapping call leaves state behind in the shared mapping/modification objects (toy cap modification; observed while building the harness, cause not isolated)
+found   : mapping a second molecule with the same modification Mapping objects lost the particle the modification mapping creates: apply_mod_mapping appended to the 'modifications' list it had just copied by reference from the mapping's modification node, so the template grew with every use
 exit 1 = the violation reproduces, exit 0 = it does not.
 """
 import importlib, os, sys, traceback
